@@ -107,3 +107,29 @@ Definition ptr_eqb (p q : option N) : bool :=
 (** f64 as its bit pattern: NaN = exponent all ones and a non-zero mantissa *)
 Definition f64_is_nan (b : N) : bool :=
   ((b / 2 ^ 52) mod 2 ^ 11 =? 2047) && negb (b mod 2 ^ 52 =? 0).
+
+(** ** Loops, recursion, [Option] and slice helpers (T8 with [--fuel]) *)
+(** a lifted loop body either leaves the whole function ([LRet], from `return` / `?`) or hands the loop-carried
+    variables back ([LNext], from `break` or the exhausted counter) *)
+Inductive lctl (R S : Type) :=
+| LRet (r : R)
+| LNext (s : S).
+Arguments LRet {R S}. Arguments LNext {R S}.
+Definition P_fuel : N := 110.    (* not a Rust panic: the fuel of a recursive translation ran out *)
+Definition P_unwrap : N := 111.  (* `Option::unwrap` / `expect` on `None` *)
+Definition opt_unwrap {A} (o : option A) : gres A :=
+  match o with Some x => GOk x | None => GPanic P_unwrap end.
+(** [v.last()] / [v.last_mut()] and the write-back through the latter *)
+Definition vec_last {A} (l : list A) : option A :=
+  match rev l with [] => None | x :: _ => Some x end.
+Definition vec_upd_last {A} (l : list A) (x : A) : list A := removelast l ++ [x].
+(** [v.iter().position(f)]: the closure may panic; it runs on the elements in order up to the first hit *)
+Fixpoint vec_position_from {A} (f : A -> gres bool) (l : list A) (i : N) : gres (option N) :=
+  match l with
+  | [] => GOk None
+  | x :: t => gbind (f x) (fun b => if b then GOk (Some i) else vec_position_from f t (i + 1))
+  end.
+Definition vec_position {A} (f : A -> gres bool) (l : list A) : gres (option N) := vec_position_from f l 0.
+(** [a == b] on byte slices *)
+Definition vec_eqb (a b : list N) : bool :=
+  (lenN a =? lenN b) && forallb (fun '(x, y) => x =? y) (combine a b).
